@@ -44,6 +44,24 @@ func Main(args []string) int {
 		return cmdRun(args[1:])
 	case "check":
 		return cmdCheck(args[1:])
+	case "conc":
+		// verif conc <replay.json>: run the harness in the engine's concrete mode on the vector
+		var rf replayFile
+		if err := loadJSON(args[1], &rf); err != nil {
+			fmt.Fprintln(os.Stderr, err)
+			return 2
+		}
+		P, err := Load(envOr("VERIF_REPO", "/repo"), envOr("VERIF_HARNESS", "/verif/harness"))
+		if err != nil {
+			fmt.Fprintln(os.Stderr, err)
+			return 2
+		}
+		r := P.runConcreteVec(rf.Harness, rf.Bounds, rf.Vector)
+		fmt.Println("status:", r.Status, r.Msg)
+		for _, a := range r.Asserts {
+			fmt.Println(" ", a)
+		}
+		return 0
 	case "list":
 		P, err := Load(envOr("VERIF_REPO", "/repo"), envOr("VERIF_HARNESS", "/verif/harness"))
 		if err != nil {
